@@ -285,4 +285,9 @@ def lexAll : Bytes → List Tok := lexAllT genTables
 def lexComments : Bytes → List (Nat × Nat × Bytes) := lexCommentsT genTables
 def lexPos : Bytes → Nat := lexPosT genTables
 
+/-- number of newline bytes -/
+def countNL : Bytes → Nat
+  | [] => 0
+  | b :: r => (if b == 0x0A then 1 else 0) + countNL r
+
 end Martian.Tokenizer
